@@ -35,7 +35,8 @@ class KeysutilFaults(TransitStream):
     testname = "TestVerifC17Faults"
     rule = ("the same histories with a single failing storage Put (1st, 2nd or 3rd of the operation) planned before rotate / "
             "trim / config / backup / restore, LockManager cache on, over a transactional in-memory backend: rotate/config/trim "
-            "run inside a storage transaction as their handlers do (StartTxStorage), create/backup/restore do not; the "
+            "and restore run inside a storage transaction as their handlers do (StartTxStorage), create/backup do not; "
+            "restoreraw is the bare library call RestorePolicy outside a transaction (keysutil level only); the "
             "model carries the same fault plan through Persist's rollback")
 
 
@@ -56,7 +57,7 @@ class TransitWBFaults(TransitStream):
     harness = TransitWB.harness
     testname = "TestVerifC17EndpointFaults"
     rule = ("endpoint histories with a single failing storage Put planned before keys/<name>/rotate, /trim, /config, "
-            "backup/<name>, restore/<name> (cache on); starts with the directed histories of the repaired finding F38 (trim) and of a failed, retried rotation")
+            "backup/<name>, restore/<name> (cache on); starts with the directed histories of the repaired findings F38 (trim) and F39 (restore) and of a failed, retried rotation")
 
 
 class C17(PropCheck):
@@ -69,9 +70,10 @@ class C17(PropCheck):
                   "any length: archive_invariant, no_panic, roundtrip, rewrap_roundtrip, binds_inputs, "
                   "encrypt_respects_min_enc, old_versions_until_min_raised (iff, along any later ring-keeping history), "
                   "convergent_deterministic, sign_verify_sound/iff, hmac_verify_sound/iff, atoi_itoa; "
-                  "old_versions_under_faults_partial extends it to histories with a failing storage Put inside rotate/config/trim "
-                  "(true since the repair of F38), old_versions_under_faults_cex proves it false for a Put failing inside "
-                  "restore (finding F39). The model is tied to the Go code by differential history streams at the keysutil level and "
+                  "old_versions_under_faults extends it to histories with failing storage Puts inside any endpoint operation "
+                  "incl. failing restores (true since the repairs of F38 and F39, transactional storage assumed), "
+                  "old_versions_under_faults_bare_restore_cex proves it false for the bare library call of RestorePolicy "
+                  "outside a transaction (finding F39, library call only). The model is tied to the Go code by differential history streams at the keysutil level and "
                   "through the real endpoints (with and without injected Put faults) on every run, and the property "
                   "predicate is evaluated directly on every implementation output")
     level_note = ("trusted: Lean kernel; symbolic (Dolev-Yao) cryptography: AEAD open / signature verify / HMAC compare succeed "
@@ -85,8 +87,8 @@ class C17(PropCheck):
         "cryptographic primitives are ideal: AES-GCM / ChaCha20-Poly1305 open, Ed25519 / ECDSA verify and HMAC compare succeed "
         "only for the exact key, nonce, associated data, message and tag produced at sealing time; HKDF derivation is "
         "injective in (key, context)",
-        "fault-free storage for the property theorems; old_versions_under_faults_partial additionally assumes a "
-        "transactional storage backend (the writes of a failed rotate/config/trim request are rolled back)",
+        "fault-free storage for the property theorems; old_versions_under_faults instead assumes a transactional storage "
+        "backend (the writes of a failed rotate/config/trim/restore request are rolled back by StartTxStorage)",
         "key names, version template and KDF mode are the defaults of LockManager-created policies",
     ]
     trusted_base = ["Lean 4.33.0 kernel",
